@@ -548,7 +548,9 @@ fn gen_answer(rng: &mut Rng, n_lines: usize, weights: &[u32; 6]) -> Ans {
 }
 
 pub fn generate_case(rng: &mut Rng) -> Case {
+    let long_program = rng.chance(1, 60);
     let n_lines = match rng.below(4) {
+        _ if long_program => 100 + rng.usize(200),
         0 => 1 + rng.usize(4),
         1 | 2 => 3 + rng.usize(12),
         _ => 10 + rng.usize(30),
